@@ -154,6 +154,7 @@ def inline_new_helpers(raw, ref_names, max_blocks=600):
     for n in new:
         plain_new[_plain(n)] = n
     done = []
+    spliced = set()
     counter = [0]
     for _round in range(6):
         progressed = False
@@ -181,13 +182,16 @@ def inline_new_helpers(raw, ref_names, max_blocks=600):
                     hn = plain_new.get(_plain(c))
                     if hn in ready and len(caller['blocks']) + len(bodies[hn]['blocks']) <= max_blocks:
                         inline_call(caller, bl, t, bodies[hn], bodies, counter)
+                        spliced.add(hn)
                         changed = True
                         progressed = True
                         break
         for n in ready:
             new.discard(n)
             still_called = any(plain_new.get(_plain(c)) == n for b in bodies.values() if b['name'] != n for _, _, c in _calls(b))
-            if not still_called and _plain(n) not in txt_refs:
+            # only a helper that really was spliced somewhere disappears; trait methods stay (they are entered through
+            # dynamic / generic dispatch that leaves no direct call in the crate)
+            if n in spliced and not bodies[n].get('impl_trait') and not bodies[n].get('impl_trait_def') and not still_called and _plain(n) not in txt_refs:
                 done.append(n)
                 del bodies[n]
                 for k in [k for k in bodies if k.startswith(n + '::promoted[')]:
